@@ -104,6 +104,7 @@ def witness(fa, case, r, model, kind="path"):
         "trace": r.path.trace, "steps": r.path.steps, "uses": builtin_uses(r.path),
         "ap_end": r.path.ap - r.path.entry_fp,
         "loose": any(h.loose for h in r.path.hints),
+        "uf": bool(r.path.hstate.get("uf")),
     }
 
 
